@@ -28,12 +28,12 @@ COQ_PROPS_C08 = ['Properties_C08_kll']
 RULE_C07 = ('operation scripts over up to 4 registers holding kll_sketch<int64_t>, kll_sketch<double> (integer values, NaN updates and NaN split points) or '
             'kll_sketch<string, greater> (order-isomorphic encoding): k in {8,9,16,20,200} plus refused k (0,7,65536); streams sorted/reversed/random/constant/'
             'heavy duplicates of 0..~1500 items; merges of equal and unequal k, exact/estimating/empty operands, lvalue and rvalue, merge chains and trees '
-            '(level 0 left empty by a merge is frequent); after the history every register is observed (n, min, max, num_retained, iterator listing) and queried: '
+            '(level 0 left empty by a merge is frequent; 12 merge trees of depth >= 2 with 3-4 distinct k from 8..400 whose deepest operand is in estimation mode: min_k and the published rank error are checked against the minimum over the tree); after the history every register is observed (n, min, max, num_retained, iterator listing) and queried: '
             'rank grid, dyadic quantile grid incl. 0 and 1 and out-of-range ranks, CDF/PMF with valid, unsorted, duplicate and NaN split points, sorted-view listing; '
             'queries are also interleaved with updates (they sort level 0 in place). non-trivial = at least one compaction (coin drawn) or one merge')
 RULE_C08 = ('exhaustive enumeration on the implementation of ALL outcomes of the internal coin flips for short histories (updates and merges over registers; '
             'k in {8,9}; m <= 8 coins quick, <= 13 thorough) through scripted coins: for every query point the sum over the 2^m outcomes of the rank numerators '
-            'must equal 2^m * true rank, every outcome must draw exactly m coins (enumeration, not proof; the theorem is Properties_C08_kll). '
+            'must equal 2^m * true rank, every outcome must draw exactly m coins (enumeration, not proof; the theorem is Properties_C08_kll); about a third of the histories are merge trees of depth >= 2 over 3 distinct k whose deepest operand is in estimation mode, and every outcome is observed: the published rank error must be the documented function of min_k_ and min_k the minimum over the merge tree (KllMinK.mk_spec). '
             'non-trivial = every such case (m >= 1)')
 TRUSTED = ['KLL model coq/KllDefs.v + coq/SortedView.v written by hand from kll_sketch_impl.hpp / kll_helper_impl.hpp / quantiles_sorted_view_impl.hpp; std::sort, std::merge, '
            'std::lower_bound/upper_bound modelled by insertion sort, a stable merge and a linear scan (same results on the sorted ranges they are applied to)',
@@ -114,6 +114,73 @@ class Sz:
         self.n = final_n
         return f
 
+
+# ---------------------------------------------------------------------------------------------------------------------
+# min_k / published error (C07: coherent answers after merges; C08: "the error the sketch itself publishes, also after merging")
+# specification (Coq: KllMinK.mk_spec, theorem C08_kll_min_k_spec): min_k = min of the sketch's own k and, transitively, of the
+# min_k of every operand that was in estimation mode when merged in; estimation mode is decided by the size-only simulation.
+# ---------------------------------------------------------------------------------------------------------------------
+def min_k_checks(case, irecs, fail):
+    sims = {}; mk = {}
+    for i, op in enumerate(case['ops']):
+        if i >= len(irecs):
+            break
+        R = irecs[i]['R']; F = irecs[i].get('F') or []
+        oc = op[0]
+        if oc == 1:
+            if R == [1]:
+                sims[op[1]] = Sz(op[3]); sims[op[1]].kind = op[2]; mk[op[1]] = op[3]
+        elif oc == 2:
+            if R == [1] and op[1] in sims:
+                sims[op[1]].internal_update()
+        elif oc == 4:
+            r, r2 = op[1], op[2]
+            if R == [1] and r in sims and r2 in sims:
+                if sims[r2].n > 0 and len(sims[r2].sz) >= 2:
+                    mk[r] = min(mk[r], mk[r2])
+                sims[r].merge(sims[r2])
+                if op[3] == 1:
+                    del sims[r2]; del mk[r2]
+        elif oc == 13:
+            if R == [1] and op[2] in sims:
+                kd = sims[op[2]].kind; sims[op[1]] = sims[op[2]].copy(); sims[op[1]].kind = kd; mk[op[1]] = mk[op[2]]
+        elif oc == 5:
+            r = op[1]
+            if R == [-1] or len(R) < 5 or r not in sims:
+                continue
+            if len(F) >= 7:
+                e0, e1, mkp, s0, s1, k = F[1:7]
+                if (e0, e1) != (s0, s1) or mkp != R[4]:
+                    fail('kll_published_error_not_function_of_min_k',
+                         'get_normalized_rank_error() = %r/%r is not the documented function of min_k_ = %d (%r/%r; min_k recovered from the published error: %d)' %
+                         (dbl(e0), dbl(e1), mkp, dbl(s0), dbl(s1), R[4]), i)
+                if not (8 <= mkp <= k):
+                    fail('kll_min_k', 'min_k_ = %d outside [8, k = %d]' % (mkp, k), i)
+            if R[4] != mk[r]:
+                fail('kll_min_k_after_merge',
+                     'the sketch publishes the rank error of k = %d, but the smallest k over its merge tree (its own k = %d and the min_k of every '
+                     'estimation-mode operand, transitively) is %d' % (R[4], sims[r].k, mk[r]), i)
+
+def tree_ops(rng, kind, ks, small):
+    """depth >= 2 merge tree with >= 3 distinct k: B (smallest k, estimation mode) -> A -> C [-> D]; returns (ops, coins drawn, sims, vals)"""
+    ks = list(ks); kb = min(ks); rest = [k for k in ks if k != kb]; rng.shuffle(rest)
+    order = [kb] + rest
+    ops = []; sims = {}; vals = {}; m = 0
+    for r, k in enumerate(order):
+        ops.append([1, r, kind, k]); sims[r] = Sz(k); sims[r].kind = kind; vals[r] = []
+    nb = rng.randrange(kb + 1, kb + 5) if small else rng.randrange(kb + 1, 6 * kb)
+    for x in stream(rng, nb):
+        ops.append([2, 0, x if not small else x % 64]); vals[0].append(x if not small else x % 64); m += sims[0].internal_update()
+    for r in range(1, len(order)):
+        na = rng.choice([0, 1, 2, 3]) if small else rng.choice([0, 1, order[r] - 1, order[r] + 3, rng.randrange(0, 3 * order[r])])
+        for x in stream(rng, na):
+            x = x % 64 if small else x
+            ops.append([2, r, x]); vals[r].append(x); m += sims[r].internal_update()
+        ops.append([5, r - 1])
+        ops.append([4, r, r - 1, 0]); m += sims[r].merge(sims[r - 1]); vals[r] += vals[r - 1]
+        ops.append([5, r])
+    return ops, m, sims, vals
+
 # ---------------------------------------------------------------------------------------------------------------------
 # C07 generator
 # ---------------------------------------------------------------------------------------------------------------------
@@ -168,6 +235,13 @@ def gen_c07(rng, tier):
     # the confirmed defect F2, verbatim (a(k=8) 37 updates, b(k=8) 91 updates, a.merge(b))
     ops = [[1, 0, 0, 8], [1, 1, 0, 8]] + [[2, 0, i] for i in range(37)] + [[2, 1, 1000 + i] for i in range(91)] + [[4, 0, 1, 0], [5, 0], [10, 0]]
     cases.append(dict(id='kll_f2', ops=ops, tags=['merge', 'compaction']))
+    for ti in range(12 if not thorough else 120):
+        kind = rng.choice([0, 0, 1, 2])
+        ks = rng.sample([8, 9, 12, 16, 20, 50, 200, 400], rng.choice([3, 3, 4]))
+        tops, m, sims, vals = tree_ops(rng, kind, ks, False)
+        top = len(ks) - 1
+        ops = [[99, rng.randrange(1 << 30)]] + tops + query_block(rng, top, kind, vals[top], thorough)
+        cases.append(dict(id='klltree%d' % ti, ops=ops, tags=['merge', 'merge-tree-depth>=2', 'mixed-k'] + (['compaction'] if m else [])))
     for ci in range(ncases):
         ops = []; tags = set()
         kind = rng.choice([0, 0, 1, 1, 2])
@@ -268,6 +342,7 @@ def oracle_c07(case, irecs, mrecs):
     fails = []
     def fail(sig, what, i):
         fails.append(dict(sig=sig, what=what, op_index=i))
+    min_k_checks(case, irecs, fail)
     regs = {}      # r -> dict(log, merged, epoch)
     hist = {}      # r -> per-epoch query results: dict(epoch, ranks=[(x, ni, ne)], quants=[(j, t, qi, qe)], retained=set or None)
     def view(r):
@@ -453,6 +528,13 @@ def oracle_c07(case, irecs, mrecs):
 def history(rng, max_m):
     """a short history over registers; returns (ops, m, query register, values)"""
     for _ in range(200):
+        if rng.random() < 0.35:
+            # merge tree of depth >= 2 with 3 distinct k, the deepest operand in estimation mode (min_k != k of the direct operand)
+            kind = rng.choice([0, 0, 1, 2])
+            tops, m, sims, vals = tree_ops(rng, kind, rng.sample([8, 9, 10, 12, 16, 20], 3), True)
+            if 1 <= m <= max_m and vals[2]:
+                return tops, m, 2, vals[2]
+            continue
         nreg = rng.choice([1, 1, 2, 2, 3])
         kind = rng.choice([0, 0, 0, 1, 2])
         ks = [rng.choice([8, 8, 9]) for _ in range(nreg)]
@@ -497,6 +579,7 @@ def gen_c08(rng, tier):
             ops.append([98] + [(c >> b) & 1 for b in range(m)])
             ops += hops
             ops.append([97])
+            ops.append([5, qr])                   # n, min/max, iterator, min_k / published error after the merges
             for x in pts:
                 ops.append([6, qr, x])
         budget -= len(ops)
@@ -506,6 +589,7 @@ def gen_c08(rng, tier):
 
 def oracle_c08(case, irecs, mrecs):
     fails = []
+    min_k_checks(case, irecs, lambda sig, what, i: fails.append(dict(sig=sig, what=what, op_index=i)))
     ops = case['ops']
     # split into repetitions at op 99
     starts = [i for i, op in enumerate(ops) if op[0] == 99]
